@@ -4,7 +4,7 @@
    the invalid ones before reducing (NaN masking), except for the bitwise and/or reductions. *)
 From Coq Require Import QArith.
 From HS Require Import Prelude Cov Map Spec Ops Spec2 Params AtFold MapProofs UpdateProofs HistoryProofs
-     LayoutProofs AccountProofs OpsProofs RebuildProofs Exec Exec2 ExecProofs.
+     LayoutProofs AccountProofs OpsProofs RebuildProofs CongRefine Exec Exec2 ExecProofs.
 Open Scope Z_scope.
 
 Section C07.
@@ -24,6 +24,15 @@ Theorem C07_degrade_reduces_the_children :
     then red (map (fun x => (read V (p_dv P) m x, znth (p_dv P') wd x)) (zrange (q * r) ((q + 1) * r)))
     else nb.
 Proof. exact (degrade2_read P P'). Qed.
+
+(* the same at the level of the whole map: the abstraction of the degraded map is the dense weighted
+   degrade of the abstraction ([wd] = the weights per sky pixel, [wsp] = the same weights in the storage
+   order of m) *)
+Theorem C07_degrade_refines :
+  forall (red : list (V * W) -> W) (r : Z) (nb : W) (m : smap V) (wsp wd : list W),
+    wf P m -> 0 < r -> nfine m mod r = 0 -> aligned P P' m wsp wd -> zlen wd = npix V m ->
+    abs W (p_dv P') (degrade2 V W red r nb m wsp) = d_degrade2 V W red r nb (abs V (p_dv P) m) wd.
+Proof. exact (degrade2_refines P P'). Qed.
 
 (* the degraded map obeys the layout invariant (overflow block reset to the sentinel included) *)
 Theorem C07_degrade_keeps_layout :
@@ -78,6 +87,7 @@ Proof.
 Qed.
 
 Print Assumptions C07_degrade_reduces_the_children.
+Print Assumptions C07_degrade_refines.
 Print Assumptions C07_degrade_keeps_layout.
 Print Assumptions C07_degrade_keeps_coverage.
 Print Assumptions C07_no_valid_child_is_invalid.
